@@ -665,15 +665,19 @@ func ruleLexMode(c *Ctx) {
 			continue
 		}
 		// guarded by Peek() == ';'
+		neq := false
 		side, ok := c.branchSide(ci.Block(), func(v ssa.Value) bool {
 			b, ok := v.(*ssa.BinOp)
-			if !ok || b.Op != token.EQL {
+			if !ok || (b.Op != token.EQL && b.Op != token.NEQ) {
 				return false
 			}
 			k, ok := constInt(b.Y)
+			if ok && k == ';' {
+				neq = b.Op == token.NEQ
+			}
 			return ok && k == ';'
 		})
-		if !ok || !side {
+		if !ok || side == neq {
 			continue
 		}
 		// predicate: false at newline, true for an ordinary rune
@@ -690,6 +694,14 @@ func ruleLexMode(c *Ctx) {
 			if staticCallee(ci2.Common()) == fn && dominatesInstr(ci, ci2) {
 				rec = true
 			}
+		}
+		// ... or the next round of a loop that starts the scan over: from the comment, control only goes back to the loop's head
+		b := ci.Block()
+		for i := 0; i < 3 && !rec && len(b.Succs) == 1; i++ {
+			if l := naturalLoop(b.Succs[0]); l != nil && l[ci.Block()] {
+				rec = true
+			}
+			b = b.Succs[0]
 		}
 		comment = stopsAtNL && rec
 	}
@@ -900,10 +912,11 @@ func ruleSpell(c *Ctx) {
 		}
 	}
 	sort.Strings(alt)
-	// consumers: any invoke of Value() on a token loaded from ChordDegree.Accidental outside package input/ast
+	// consumers: any invoke of Value() on a token loaded from ChordDegree.Accidental, wherever it is (an accessor next to
+	// the AST included), except in generated code and in the canonicaliser itself
 	n := 0
 	for _, fn := range c.srcFuncs() {
-		if fn.Pkg == nil || strings.HasSuffix(fn.Pkg.Pkg.Path(), "/input/ast") {
+		if fn.Pkg == nil || strings.HasSuffix(c.Fset.PositionFor(fn.Pos(), false).Filename, "_generated.go") || fname(fn) == "input/ast.AccidentalValue" {
 			continue
 		}
 		for _, ci := range callsIn(fn) {
@@ -1012,7 +1025,7 @@ func ruleSpell(c *Ctx) {
 	}
 	// consumer tables
 	understood := map[string]bool{}
-	if m, _, _ := c.mapTable("op", "map[op.Accidental]string", "accidentalStringMap"); m != nil {
+	if m, _, _ := c.printedTable("op", "map[op.Accidental]string", "accidentalStringMap", "Accidental.String", "Accidental", "UnknownAccidental"); m != nil {
 		for _, e := range m.Entries {
 			s, _ := asStr(e.V)
 			understood[s] = true
